@@ -779,6 +779,8 @@ def check(run, project):
     q5(run, project)
     from .shared import unbound_locals
     unbound_locals(run, project, "Q6", (PRETTY, EVENTS, "tpmstream.io.binary.unmarshal"), what="the printer fails instead of printing")
+    from .shared import discarded_generators
+    discarded_generators(run, project, "Q7", modules=(PRETTY, EVENTS, "tpmstream.io.binary.unmarshal"))
     from .shared import undefined_names
     undefined_names(run, project, "Q6", (PRETTY, EVENTS, "tpmstream.io.binary.unmarshal"), what="the printer fails instead of printing")
     run.floor("Q1", 15)
